@@ -416,7 +416,7 @@ inductive Outcome where
   | update (t : Target)          -- Watcher.UpdateDesc
   | unchanged                    -- (nil, nil): nothing is reported
   | error (e : Err)              -- Watcher.ReportError
-  deriving Repr
+  deriving DecidableEq, Repr
 
 /-- `resolveWithMethod` after a successful `connectClient`: hashes, `parseFileDescriptors` -/
 def finish (last : Option Snapshot) (ok : StreamOk) : Option Snapshot × Outcome :=
@@ -442,28 +442,30 @@ def swapFront (l : List Version) (i : Nat) : List Version :=
 /-- log of one poll: which methods were tried, and the conversation on each stream -/
 abbrev PollLog := List (Version × Option History)
 
+/-- `Resolver.resolveWithMethod`: connect, converse, hash, parse.  Returns the conversation (if a
+    stream was established), the remembered hashes and the outcome. -/
+def resolveWithMethod (dedup : List DFile → List DFile) (cfg : Cfg) (ep : Endpoint) (last : Option Snapshot) :
+    Option History × Option Snapshot × Outcome :=
+  match ep.connErr with
+  | some c => (none, last, .error ⟨c⟩)
+  | none =>
+    match runStream dedup cfg ep.pol ep.sched with
+    | (h, .error e) => (some h, last, .error e)
+    | (h, .ok ok) => (some h, finish last ok)
+
 /-- the loop of `Resolver.resolve` over `methodPriority[i..]` -/
 def resolveFrom (dedup : List DFile → List DFile) (cfg : Cfg) (env : Version → Endpoint) (st : RState) :
     Nat → List Version → PollLog → RState × Outcome × PollLog
   | _, [], log => (st, .error ⟨codeUnimplemented⟩, log)     -- "all reflection methods failed" wraps Unimplemented errors
   | i, v :: rest, log =>
-    let ep := env v
-    match ep.connErr with
-    | some c =>
-      if c = codeUnimplemented then resolveFrom dedup cfg env st (i + 1) rest (log ++ [(v, none)])
-      else (st, .error ⟨c⟩, log ++ [(v, none)])
-    | none =>
-      match runStream dedup cfg ep.pol ep.sched with
-      | (h, .error e) =>
-        if e.code = codeUnimplemented then resolveFrom dedup cfg env st (i + 1) rest (log ++ [(v, some h)])
-        else (st, .error e, log ++ [(v, some h)])
-      | (h, .ok ok) =>
-        let (last, out) := finish st.last ok
-        match out with
-        | .error e =>
-          -- an error of parseFileDescriptors carries no status: never Unimplemented
-          (st, .error e, log ++ [(v, some h)])
-        | out => ({ priority := swapFront st.priority i, last := last }, out, log ++ [(v, some h)])
+    match resolveWithMethod dedup cfg (env v) st.last with
+    | (h, last, out) =>
+      match out with
+      | .error e =>
+        if e.code = codeUnimplemented then resolveFrom dedup cfg env st (i + 1) rest (log ++ [(v, h)])
+        else (st, .error e, log ++ [(v, h)])
+      | .update t => ({ priority := swapFront st.priority i, last := last }, .update t, log ++ [(v, h)])
+      | .unchanged => ({ priority := swapFront st.priority i, last := last }, .unchanged, log ++ [(v, h)])
 
 /-- `Resolver.resolve` -/
 def resolve (dedup : List DFile → List DFile) (cfg : Cfg) (env : Version → Endpoint) (st : RState) :
